@@ -82,7 +82,7 @@ def NbOk (nb : Nat) : Prop := nb % 16 = 0 ∧ 32 ≤ nb ∧ nb < 2 ^ 63
 /-- the mmap contract for the answer `sys_alloc` is about to pop: a served mapping is 16-aligned, not null,
 inside the address space and disjoint from every segment held -/
 def OsOk (s : St) (len : Nat) : Prop :=
-  ∀ tbase q, s.osq = .m (some tbase) :: q → OsFresh s tbase len
+  ∀ tbase q, s.osq = .m (some tbase) :: q → OsFresh s tbase len ∧ tbase % 4096 = 0
 
 /-- the length `sys_alloc s nb` asks the OS for -/
 def sysLen (nb : Nat) : Nat := align_up (nb + top_foot_size + MALLOC_ALIGNMENT) DEFAULT_GRANULARITY
